@@ -2232,7 +2232,9 @@ func (h *fsmHandler) loop(ctx context.Context, wg *sync.WaitGroup) {
 func (h *fsmHandler) changeadminState(s adminState) error {
 	fsm := h.fsm
 	old := fsm.adminState.Load()
-	if fsm.adminState.CompareAndSwap(old, s) {
+	// a request for the state the peer is already in must be refused: CompareAndSwap(old, s)
+	// alone succeeds when old == s and would toggle State.AdminDown and restart timers
+	if old != s && fsm.adminState.CompareAndSwap(old, s) {
 		fsm.logger.Debug("admin state changed",
 			slog.String("State", fsm.state.String()),
 			slog.String("adminState", s.String()))
